@@ -99,7 +99,9 @@ func BuildBody(op *ClientOp) ([]byte, string) {
 		m := map[string]any{
 			"model":      b.Model,
 			"max_tokens": 128,
-			"messages":   []any{map[string]any{"role": "user", "content": "NONCE<" + nonce + "> " + string(cellBytes("q"+nonce, 0, b.N))}},
+			"system":     "SYSTEM<" + nonce + "> be brief", // Anthropic-only top-level field: a translated body cannot be identical
+
+			"messages": []any{map[string]any{"role": "user", "content": "NONCE<" + nonce + "> " + string(cellBytes("q"+nonce, 0, b.N))}},
 		}
 		if b.Stream {
 			m["stream"] = true
